@@ -287,14 +287,16 @@ def run(run, tier):
         regen = 'translator refused: %s' % str(ex)[-300:]
         run.violation('C06/rhs-translation', 'translate/rhs2v.py refuses the current analytic.py (%s); the conserve_ theorems over Gen/Rhs.v are not re-established; '
                       'conservation is still checked numerically on every entry point below' % regen, {'broken': 'translate/rhs2v.py', 'log': regen}, no_input=True)
-    props = C.check_props('C06')
-    proof_broken = not props['ok']
+    from . import rhs2_spec as S2
+    regen2 = S2.regen_phase()
+    props = C.check_props('C06') if regen2 is None else S2.REFUSED_PROPS(regen2)
+    proof_broken = not props['ok'] and regen2 is None
     # conservation / sign clauses of the 2-D and node-level right-hand sides: hand-written model tied by point evaluation,
     # every theorem re-evaluated on the Python functions (own RNG stream: the cases below are not shifted)
     from . import rhs2_spec as S2
     def _report(run_, key, what, rp, no_input=False):
         n0 = len(run_.violations); run_.violation(key, what, rp, no_input); return len(run_.violations) > n0
-    blk = S2.check_block(run, EoN, 'C06', tier, _report)
+    blk = S2.check_block(run, EoN, 'C06', tier, _report, regen2)
     t1 = time.time()
     wit = [dict(w[1]) for w in WITNESSES]
     cases = wit + C.load_corpus('C06') + gen_cases(rng, tier)
@@ -355,7 +357,7 @@ def run(run, tier):
                      'with initial_recovereds absent, empty or non-empty, 3 time grids.  Non-trivial = the implementation returned a result.  Curve checks of the '
                      'homogeneous pairwise models are limited to requests inside the closure\'s domain (rho, or a regular graph).  ' % len(OC.ENTRIES) + S2.RULE,
                      samples, {'distribution': stats, 'per_entry': per_entry, 'oracle_violations': nviol, 'distinct_violation_keys': len(seen), 'refutation_witnesses_confirmed_on_code': wrep, 'rhs_regeneration': regen,
-                               'rhs2': dict(blk['dist'], samples=blk['samples'], hand_written_model='coq/Model/Rhs2D.v (component rhs2), tied by point evaluation'),
+                               'rhs2': dict(blk['dist'], samples=blk['samples'], hand_written_model='coq/Model/Rhs2D.v (component rhs2): proved equal to the definitions generated from the source by translate/rhs2d2v.py (Gen/Rhs2.v, theorems C06_generated_*), both tied by point evaluation'),
                                'correspondence': corr, 'wall_coq_s': round(t1 - t0, 1), 'wall_impl_s': round(t2 - t1, 1)})
     run.assumptions += ['Model/Rhs2D.v is a hand-written model of the 2-D / node-level right-hand sides; its precondition is index_of_node = enumerate(nodelist) over a simple graph (what every caller in analytic.py builds)',
                         'scipy.integrate.odeint / ode return the initial value as first row and the solution to tolerance',
